@@ -15,7 +15,7 @@ from common import cbool, clist, cnat
 THEORY = "C01"
 ALLOWED = {  # kind -> allowed result classes (without fault) ; delivery_error always allowed under a fault
     "ok": "value", "exc": "exception", "baseexc": "exception", "badres": "delivery_error", "badarg": "delivery_error",
-    "slow_to": "timeout", "islocked": "value", "getname": "value", "getsignals": "value", "selfcall": "value", "selfnested": "timeout", "badload_arg": "delivery_error", "badload_res": "delivery_error"}
+    "slow_to": "timeout", "islocked": "value", "getname": "value", "getsignals": "value", "selfcall": "value", "selfnested": "timeout", "huge": "value", "big": "value", "badload_arg": "delivery_error", "badload_res": "delivery_error"}
 
 
 def to_labels(obs, spec):
@@ -35,7 +35,7 @@ def to_labels(obs, spec):
             c = obs["calls"][tag]
             cid = callers.setdefault(c["caller"], len(callers))
             kind = c["kind"]
-            body = {"selfcall": "OValue %d" % rid, "selfnested": "OValue %d" % rid, "getname": "OValue %d" % rid, "getsignals": "OValue %d" % rid, "badload_arg": "OValue %d" % rid, "badload_res": "OValue %d" % rid, "ok": "OValue %d" % rid, "badres": "OValue %d" % rid, "badarg": "OValue %d" % rid, "slow_to": "OValue %d" % rid, "islocked": "OValue %d" % rid,
+            body = {"huge": "OValue %d" % rid, "big": "OValue %d" % rid, "selfcall": "OValue %d" % rid, "selfnested": "OValue %d" % rid, "getname": "OValue %d" % rid, "getsignals": "OValue %d" % rid, "badload_arg": "OValue %d" % rid, "badload_res": "OValue %d" % rid, "ok": "OValue %d" % rid, "badres": "OValue %d" % rid, "badarg": "OValue %d" % rid, "slow_to": "OValue %d" % rid, "islocked": "OValue %d" % rid,
                     "exc": "OExc %d" % rid, "baseexc": "OExc %d" % rid}[kind]
             info.append("mkInfo %s %s %s %s (%s)" % (cbool(c["remote"]), cnat(cid), cbool(kind != "badarg"),
                                                      cbool(kind != "badres"), body))
@@ -163,7 +163,7 @@ def oracle(spec, res):
                 continue
             return "wrong-outcome", "call %s (%s, %s) ended with %s %s, expected %s" % (
                 tag, c["kind"], "remote" if c["remote"] else "local", cls, c["result"][1], want)
-        if cls == "value" and c["kind"] in ("ok",) and tag not in c["result"][1]:
+        if cls == "value" and c["kind"] in ("ok", "huge", "big") and tag not in c["result"][1]:
             return "foreign-outcome", "call %s received another call's value %s" % (tag, c["result"][1])
     if "later_call" in o and "later" not in o["later_call"]:
         return "object-dead", "the surviving object does not serve a later call: %s" % o["later_call"]
